@@ -180,6 +180,11 @@ func getPointerFromKey(sp interface{}, key string) (string, interface{}, error) 
 		return "", nil, errors.Join(err, ErrReplace)
 	}
 
+	if isNil(value) {
+		// the key designates an optional part of the document which is not (or no more) there
+		return "", nil, ErrNoSchema(key)
+	}
+
 	return pth, value, nil
 }
 
